@@ -48,7 +48,7 @@ fn slack_ms(limit_ms: u64) -> u64 {
 // ------------------------------------------------------------------------------------------------
 
 /// `run <limit_ms|0> <script hex>` →
-/// `<outcome>|<elapsed_us>|<trace>|<probe>|<regs>,<frames>,<seqb>,<strb>,<base>|<cpu_us>,<runqueue_wait_us>`
+/// `<outcome>|<elapsed_us>|<trace>|<probe>|<regs>,<frames>,<seqb>,<strb>,<base>|<cpu_us>,<runqueue_wait_us>|<export c08_marker>;<export c08_leak>`
 /// limit spec: `0` = no limit, `<n>` = milliseconds, `<n>s` = seconds, `max` = `Duration::MAX`
 fn parse_limit(spec: &str) -> Option<Duration> {
     if spec == "max" {
@@ -106,6 +106,10 @@ fn worker_run(limit: Option<Duration>, src: &str, script_path: Option<&str>) -> 
         Err(p) => format!("panic:{}", kvh::hex(p.as_bytes())),
     };
     let sizes = koto.verif_stack_sizes();
+    // the exports of the instance after the run: the marker the generated main script exports first,
+    // and the name every generated module exports first (must not leak into the main exports)
+    let export_of = |k: &str| koto.exports().get(k).map(|v| kvh::canon::value(&v)).unwrap_or("none".into());
+    let exports = format!("{};{}", export_of("c08_marker"), export_of("c08_leak"));
     let tr = trace.borrow().join(",");
     let probe = match kvh::catch(|| koto.compile_and_run(PROBE_SCRIPT)) {
         Ok(Ok(KValue::Str(s))) => s.as_str().to_string(),
@@ -114,7 +118,7 @@ fn worker_run(limit: Option<Duration>, src: &str, script_path: Option<&str>) -> 
         Err(p) => format!("panic:{}", kvh::hex(p.as_bytes())),
     };
     format!(
-        "{}|{}|{}|{}|{},{},{},{},{}|{},{}",
+        "{}|{}|{}|{}|{},{},{},{},{}|{},{}|{}",
         out,
         el.as_micros(),
         tr,
@@ -125,7 +129,8 @@ fn worker_run(limit: Option<Duration>, src: &str, script_path: Option<&str>) -> 
         sizes.3,
         sizes.4,
         cpu_us,
-        wait_us
+        wait_us,
+        exports
     )
 }
 
@@ -210,6 +215,19 @@ enum Layer {
     MetaIteratorNative,
     /// the inner block is the top level of a module file; `import` runs it with `Vm::run` (nested entry)
     Import,
+    /// `@display` of an ELEMENT of a container that is interpolated / debug-printed: `run_display` /
+    /// `run_debug_op` render the container natively, the element's `@display` runs in a nested entry
+    /// of a spawned VM — and (F-C08-4) every error of it is replaced by a string error
+    DisplayInList,
+    DisplayInMap,
+    DebugInTuple,
+    /// `@next` consumed by a native consumer (`iterator.count`) instead of `for`
+    MetaNextNative,
+    /// `@<` called by `list.sort` for every comparison (value_sort.rs: after the first error the
+    /// remaining comparisons must be skipped, or the timeout arrives #comparisons × limit late)
+    SortLess,
+    /// key function of `list.sort`
+    SortKey,
 }
 
 const SAME_ENTRY: &[Layer] = &[
@@ -241,7 +259,19 @@ const NESTED_ENTRY: &[Layer] = &[
     Layer::MetaNext,
     Layer::MetaIteratorNative,
     Layer::Import,
+    Layer::DisplayInList,
+    Layer::DisplayInMap,
+    Layer::DebugInTuple,
+    Layer::MetaNextNative,
+    Layer::SortLess,
+    Layer::SortKey,
 ];
+
+/// natives that replace every error of the entry they started by a string error
+const STRINGIFYING: &[Layer] = &[Layer::DisplayInList, Layer::DisplayInMap, Layer::DebugInTuple];
+
+/// set at start-up: F-C08-4 is listed as known, i.e. the natives above still stringify timeouts
+static STRINGIFY_OPEN: std::sync::atomic::AtomicBool = std::sync::atomic::AtomicBool::new(false);
 
 impl Layer {
     fn is_handler(self) -> bool {
@@ -249,6 +279,17 @@ impl Layer {
     }
     fn is_nested(self) -> bool {
         NESTED_ENTRY.contains(&self)
+    }
+    /// frame code of the model request: 0 plain frame, 1 entry boundary, 2 entry boundary whose native
+    /// caller turns a timeout into a string error (only while F-C08-4 is open)
+    fn frame_code(self) -> u8 {
+        if STRINGIFYING.contains(&self) && STRINGIFY_OPEN.load(Ordering::SeqCst) {
+            2
+        } else if self.is_nested() {
+            1
+        } else {
+            0
+        }
     }
     fn name(self) -> String {
         format!("{:?}", self)
@@ -267,7 +308,15 @@ enum Spin {
     LoopMethod,
     LoopThrowCatch,
     NestedLoops,
+    /// unbounded Koto-level recursion (frames live on the heap; the native stack is not involved)
+    Recursion,
+    /// … with an argument and work pending in every frame
+    RecursionPending,
 }
+
+/// spins whose call stack grows without bound: the time to unwind and to render the trace grows
+/// with the depth reached (F-C08-5); kept to limits ≤ 200 ms (≈ 1 GB of frames per second)
+const DEEP_SPINS: &[Spin] = &[Spin::Recursion, Spin::RecursionPending];
 
 const SPINS: &[Spin] = &[
     Spin::Loop,
@@ -280,6 +329,8 @@ const SPINS: &[Spin] = &[
     Spin::LoopMethod,
     Spin::LoopThrowCatch,
     Spin::NestedLoops,
+    Spin::Recursion,
+    Spin::RecursionPending,
 ];
 
 /// handler id used for the `try` that a spin itself opens around an ordinary `throw`
@@ -333,17 +384,17 @@ fn render_spin(spin: Spin, bound: Option<u32>, d: usize, out: &mut Vec<String>) 
             out.push(if t { format!("{q}while k < {b}") } else { format!("{q}loop") });
             out.push(format!("{r}k += 1"));
             out.push(format!("{r}yield k"));
-            out.push(format!("{p}for x in src()"));
-            out.push(format!("{q}i = x"));
+            out.push(format!("{p}for sx in src()"));
+            out.push(format!("{q}i = sx"));
         }
         Spin::ForRepeat => {
             out.push(format!("{p}i = 0"));
             out.push(if t {
-                format!("{p}for x in iterator.repeat(1, {b})")
+                format!("{p}for sx in iterator.repeat(1, {b})")
             } else {
-                format!("{p}for x in iterator.repeat(1)")
+                format!("{p}for sx in iterator.repeat(1)")
             });
-            out.push(format!("{q}i += x"));
+            out.push(format!("{q}i += sx"));
         }
         Spin::MutualCalls => {
             out.push(format!("{p}ping = |n, pong|"));
@@ -378,6 +429,24 @@ fn render_spin(spin: Spin, bound: Option<u32>, d: usize, out: &mut Vec<String>) 
             out.push(format!("{q}catch _"));
             out.push(format!("{r}i += 0"));
         }
+        Spin::Recursion => {
+            if t {
+                out.push(format!("{p}rec = |n| if n > 0 then rec(n - 1) else 7"));
+                out.push(format!("{p}i = rec {b}"));
+            } else {
+                out.push(format!("{p}rec = || rec()"));
+                out.push(format!("{p}i = rec()"));
+            }
+        }
+        Spin::RecursionPending => {
+            if t {
+                out.push(format!("{p}rec = |n| if n > 0 then 1 + rec(n - 1) else 0"));
+                out.push(format!("{p}i = rec {b}"));
+            } else {
+                out.push(format!("{p}rec = |n| 1 + rec(n + 1)"));
+                out.push(format!("{p}i = rec 0"));
+            }
+        }
         Spin::NestedLoops => {
             out.push(format!("{p}i = 0"));
             out.push(if t { format!("{p}while i < {b}") } else { format!("{p}loop") });
@@ -406,8 +475,8 @@ fn render(shape: &Shape, k: usize, d: usize, out: &mut Vec<String>, mods: &mut V
         Layer::Try => {
             out.push(format!("{p}try"));
             render(shape, k + 1, d + 1, out, mods);
-            out.push(format!("{p}catch _"));
-            out.push(format!("{q}emit 'h', {id}"));
+            out.push(format!("{p}catch e{id}"));
+            out.push(format!("{q}emit 'h', {id}, e{id}"));
         }
         Layer::TryRetry => {
             out.push(format!("{p}n{id} = 0"));
@@ -415,8 +484,8 @@ fn render(shape: &Shape, k: usize, d: usize, out: &mut Vec<String>, mods: &mut V
             out.push(format!("{q}n{id} += 1"));
             out.push(format!("{q}try"));
             render(shape, k + 1, d + 2, out, mods);
-            out.push(format!("{q}catch _"));
-            out.push(format!("{r}emit 'h', {id}"));
+            out.push(format!("{q}catch e{id}"));
+            out.push(format!("{r}emit 'h', {id}, e{id}"));
         }
         Layer::Fn => {
             out.push(format!("{p}f{id} = ||"));
@@ -452,6 +521,11 @@ fn render(shape: &Shape, k: usize, d: usize, out: &mut Vec<String>, mods: &mut V
         | Layer::DerivedNe
         | Layer::Display
         | Layer::MetaIteratorNative
+        | Layer::DisplayInList
+        | Layer::DisplayInMap
+        | Layer::DebugInTuple
+        | Layer::MetaNextNative
+        | Layer::SortLess
         | Layer::MetaNext => {
             let (key, args, tail, usage): (&str, &str, String, String) = match shape.layers[k] {
                 Layer::MetaCall => ("@call", "||", format!("{id}"), format!("z{id} = o{id}()")),
@@ -468,6 +542,11 @@ fn render(shape: &Shape, k: usize, d: usize, out: &mut Vec<String>, mods: &mut V
                 Layer::Display => ("@display", "||", "'d'".into(), format!("z{id} = \"<{{o{id}}}>\"")),
                 Layer::MetaNext => ("@next", "||", "null".into(), format!("for v{id} in o{id}\n{q}()")),
                 Layer::MetaIteratorNative => ("@iterator", "||", "(1, 2)".into(), format!("z{id} = iterator.count o{id}")),
+                Layer::MetaNextNative => ("@next", "||", "null".into(), format!("z{id} = iterator.count o{id}")),
+                Layer::SortLess => ("@<", "|rhs|", "true".into(), format!("z{id} = [o{id}, o{id}, o{id}, o{id}, o{id}, o{id}].sort()")),
+                Layer::DisplayInList => ("@display", "||", "'d'".into(), format!("z{id} = \"<{{[o{id}]}}>\"")),
+                Layer::DisplayInMap => ("@display", "||", "'d'".into(), format!("w{id} = {{a: o{id}}}\nz{id} = \"<{{w{id}}}>\"")),
+                Layer::DebugInTuple => ("@display", "||", "'d'".into(), format!("z{id} = \"<{{(o{id}, 1):?}}>\"")),
                 _ => unreachable!(),
             };
             out.push(format!("{p}o{id} ="));
@@ -478,7 +557,7 @@ fn render(shape: &Shape, k: usize, d: usize, out: &mut Vec<String>, mods: &mut V
                 out.push(format!("{p}{l}"));
             }
         }
-        Layer::Each | Layer::Keep | Layer::Any | Layer::Find | Layer::Transform | Layer::Fold => {
+        Layer::Each | Layer::Keep | Layer::Any | Layer::Find | Layer::Transform | Layer::Fold | Layer::SortKey => {
             let (head, tail, close): (String, &str, &str) = match shape.layers[k] {
                 Layer::Each => (format!("z{id} = (1,).each(|x|"), "x", ").to_list()"),
                 Layer::Keep => (format!("z{id} = (1,).keep(|x|"), "true", ").to_tuple()"),
@@ -486,6 +565,7 @@ fn render(shape: &Shape, k: usize, d: usize, out: &mut Vec<String>, mods: &mut V
                 Layer::Find => (format!("z{id} = (1,).find(|x|"), "false", ")"),
                 Layer::Transform => (format!("z{id} = [1].transform(|x|"), "x", ")"),
                 Layer::Fold => (format!("z{id} = (1,).fold(0, |acc, x|"), "acc", ")"),
+                Layer::SortKey => (format!("z{id} = [3, 1, 2, 5, 4].sort(|x|"), "x", ")"),
                 _ => unreachable!(),
             };
             out.push(format!("{p}{head}"));
@@ -494,7 +574,7 @@ fn render(shape: &Shape, k: usize, d: usize, out: &mut Vec<String>, mods: &mut V
             out.push(format!("{p}{close}"));
         }
         Layer::Import => {
-            let mut m = vec![];
+            let mut m = vec!["export c08_leak = 1".to_string()];
             render(shape, k + 1, 0, &mut m, mods);
             m.push(format!("export loaded{id} = {id}"));
             mods.push((format!("m{id}"), m.join("\n") + "\n"));
@@ -522,7 +602,7 @@ struct Rendered {
 }
 
 fn rendered(shape: &Shape) -> Rendered {
-    let mut out = vec![];
+    let mut out = vec!["export c08_marker = 41".to_string()];
     let mut mods = vec![];
     render(shape, 0, 0, &mut out, &mut mods);
     if shape.bound.is_some() {
@@ -581,15 +661,15 @@ fn run_program(w: &mut Worker, limit: &str, program: &str, kill_ms: u64) -> RunR
 
 /// The abstract call stack at the moment the timeout is detected (top first), as the model's
 /// `deliver` request: `(barrier handler…)` per frame.
-fn frames_of(shape: &Shape) -> Vec<(bool, Vec<usize>)> {
+fn frames_of(shape: &Shape) -> Vec<(u8, Vec<usize>)> {
     // bottom first while building: the main chunk's frame is the outermost entry (Koto::run sets
     // its execution barrier)
-    let mut st: Vec<(bool, Vec<usize>)> = vec![(true, vec![])];
+    let mut st: Vec<(u8, Vec<usize>)> = vec![(1, vec![])];
     for (k, l) in shape.layers.iter().enumerate() {
         if l.is_handler() {
             st.last_mut().unwrap().1.insert(0, k); // innermost handler first
         } else {
-            st.push((l.is_nested(), vec![]));
+            st.push((l.frame_code(), vec![]));
         }
     }
     if shape.spin == Spin::LoopThrowCatch {
@@ -603,7 +683,7 @@ fn deliver_request(shape: &Shape) -> String {
     let fr = frames_of(shape);
     let mut s = String::from("deliver t");
     for (b, hs) in fr {
-        s.push_str(&format!(" ({}", b as u8));
+        s.push_str(&format!(" ({}", b));
         for h in hs {
             s.push_str(&format!(" {}", h));
         }
@@ -637,6 +717,8 @@ struct RunOut {
     trace: Vec<String>,
     probe: String,
     sizes: Vec<u64>,
+    /// `<c08_marker>;<c08_leak>` in the instance's exports after the run
+    exports: String,
     /// on-CPU time of the worker thread during the run
     cpu_us: u64,
     /// time the worker thread was runnable but had no CPU during the run (machine overload)
@@ -659,7 +741,7 @@ const MAX_HANGS: usize = 6;
 
 fn parse_run(raw: &str) -> Option<RunOut> {
     let f: Vec<&str> = raw.split('|').collect();
-    if f.len() != 6 {
+    if f.len() != 7 {
         return None;
     }
     let cw: Vec<u64> = f[5].split(',').filter_map(|x| x.parse().ok()).collect();
@@ -672,6 +754,7 @@ fn parse_run(raw: &str) -> Option<RunOut> {
         trace: f[2].split(',').filter(|x| !x.is_empty()).map(|x| x.to_string()).collect(),
         probe: f[3].to_string(),
         sizes: f[4].split(',').filter_map(|x| x.parse().ok()).collect(),
+        exports: f[6].to_string(),
         cpu_us: cw[0],
         wait_us: cw[1],
     })
@@ -755,9 +838,27 @@ fn periods(predicted_caught: bool) -> u64 {
     if predicted_caught { 4 } else { 1 }
 }
 
+/// limit periods within which a late timeout of an unbounded-recursion spin is attributed to
+/// F-C08-5 (measured: 4.1 × limit at 20/50/200 ms); later than that is a VIOLATION
+const DEEP_PERIODS: u64 = 6;
+
+/// the model's `caught` condition, used only as generation filter for the witness family of
+/// F-C08-4: a stringifying native (while that finding is open) with a handler somewhere below it
+fn stringified_with_handler_below(shape: &Shape) -> bool {
+    let mut seen_handler = false;
+    for l in &shape.layers {
+        if l.is_handler() {
+            seen_handler = true;
+        } else if l.frame_code() == 2 && seen_handler {
+            return true;
+        }
+    }
+    false
+}
+
 fn run_case(w: &mut Worker, c: &Case, predicted_caught: bool) -> CaseRes {
     let script = script_of(&c.shape);
-    let n = periods(predicted_caught);
+    let n = if DEEP_SPINS.contains(&c.shape.spin) { DEEP_PERIODS } else { periods(predicted_caught) };
     let kill = n * c.limit_ms + slack_ms(c.limit_ms) * 3 + 4000;
     if HANGS.load(Ordering::SeqCst) >= MAX_HANGS {
         return CaseRes { first: RunRes::Skipped, retry: None };
@@ -875,7 +976,7 @@ impl Ctx {
 
 fn res_json(r: &RunRes) -> Value {
     match r {
-        RunRes::Done(o) => json!({"outcome": o.outcome, "elapsed_us": o.elapsed_us, "cpu_us": o.cpu_us, "runqueue_wait_us": o.wait_us, "trace": o.trace, "probe": o.probe, "sizes": o.sizes}),
+        RunRes::Done(o) => json!({"outcome": o.outcome, "elapsed_us": o.elapsed_us, "cpu_us": o.cpu_us, "runqueue_wait_us": o.wait_us, "exports": o.exports, "trace": o.trace, "probe": o.probe, "sizes": o.sizes}),
         RunRes::Killed(ms) => json!({"killed_after_ms": ms}),
         RunRes::Died(s) => json!({"worker_died": s}),
         RunRes::Skipped => json!({"skipped": "sweep cut short after repeated hangs"}),
@@ -894,7 +995,8 @@ fn judge(cx: &mut Ctx, c: &Case, prediction: &str, res: &CaseRes) {
     cx.rep.bump(&format!("limit_ms={}", c.limit_ms));
     cx.rep.bump(&format!("spin={:?}", c.shape.spin));
     cx.rep.bump(&format!("depth={}", c.shape.layers.len()));
-    cx.rep.bump(&format!("predicted={}", if predicted_caught { "caught" } else { "escaped" }));
+    let predicted_other = prediction == "escaped other";
+    cx.rep.bump(&format!("predicted={}", if predicted_caught { "caught" } else if predicted_other { "escaped-as-string-error" } else { "escaped-timeout" }));
     for l in &c.shape.layers {
         cx.rep.bump(&format!("layer={}", l.name()));
     }
@@ -940,13 +1042,43 @@ fn judge(cx: &mut Ctx, c: &Case, prediction: &str, res: &CaseRes) {
     if o.sizes.len() == 5 && (o.sizes[2] != 0 || o.sizes[3] != 0) {
         cx.rep.bump("builder_residue_after_run(C07 finding, not counted here)");
     }
-    let handlers_seen: Vec<usize> = o
+    if o.exports != "i41;none" {
+        cx.viol_d("C08:exports-not-restored", detail(json!({"what": "after the run the instance's exports are not those of the main script: the marker exported first is missing or an export of an imported module leaked (run_import swaps the exports and has to swap them back on every exit path, timeout included)", "exports_marker_and_leak": o.exports})));
+    }
+    // emit 'h', <id>, <caught value>  →  "sx68:i<id>:<canonical value>"
+    let handler_events: Vec<(usize, String)> = o
         .trace
         .iter()
-        .filter_map(|t| t.strip_prefix("sx68:i")) // emit 'h', <id>
-        .filter_map(|x| x.parse().ok())
+        .filter_map(|t| t.strip_prefix("sx68:i"))
+        .filter_map(|x| {
+            let (id, val) = x.split_once(':').unwrap_or((x, ""));
+            let text = val.strip_prefix('s').and_then(kvh::unhex).map(|b| String::from_utf8_lossy(&b).to_string()).unwrap_or(val.to_string());
+            id.parse().ok().map(|i| (i, text))
+        })
         .collect();
-    let swallowed = !handlers_seen.is_empty() || o.outcome != "timeout";
+    let handlers_seen: Vec<usize> = handler_events.iter().map(|e| e.0).collect();
+    // the error the host received, if it is not the timeout error
+    let host_err_text = o.outcome.strip_prefix("err:").and_then(kvh::unhex).map(|b| String::from_utf8_lossy(&b).to_string());
+    let mut swallowed = !handlers_seen.is_empty() || o.outcome != "timeout";
+    if predicted_other {
+        // the model says: no handler runs, but a native on the way (run_display / run_debug_op) replaced
+        // the timeout by its string error, which is what the host receives
+        let as_predicted = handlers_seen.is_empty() && host_err_text.as_deref().is_some_and(|t| t.starts_with("failed to get display value"));
+        if !as_predicted {
+            cx.viol_k(
+                "K:C08:Model.Timeout.deliver",
+                detail(json!({"what": "the model predicts that the host receives the string error of a stringifying native instead of the timeout error (stringified_reaches_host_as_other_witness); the implementation did something else", "handlers_seen": handlers_seen, "host_error": host_err_text})),
+            );
+            return;
+        }
+        // model and code agree; the property (a timeout error is returned) is violated: F-C08-4
+        if cx.is_open("F-C08-4") && c.shape.layers.iter().any(|l| l.frame_code() == 2) {
+            *cx.known_counts.entry("F-C08-4".into()).or_insert(0) += 1;
+        } else {
+            cx.viol_d("C08:timeout-kind-lost", detail(json!({"what": "the run was stopped by the limit but the host received a different error than the timeout error", "host_error": host_err_text})));
+        }
+        swallowed = false; // timing is judged below like for any delivered timeout
+    }
     if !predicted_caught {
         if swallowed {
             cx.viol_d(
@@ -960,7 +1092,12 @@ fn judge(cx: &mut Ctx, c: &Case, prediction: &str, res: &CaseRes) {
         if o.elapsed_us < c.limit_ms * 1000 {
             cx.viol_d("C08:early-timeout", detail(json!({"what": "timeout error returned before the limit had elapsed (never_early)"})));
         }
-        if too_slow(&o, c.limit_ms, 1) {
+        let deep = DEEP_SPINS.contains(&c.shape.spin);
+        if too_slow(&o, c.limit_ms, 1) && deep && cx.is_open("F-C08-5") && !too_slow(&o, c.limit_ms, DEEP_PERIODS) {
+            // cause rule of F-C08-5: unbounded recursion, timeout delivered, late by the time it takes
+            // to unwind and render one trace entry per frame
+            *cx.known_counts.entry("F-C08-5".into()).or_insert(0) += 1;
+        } else if too_slow(&o, c.limit_ms, 1) {
             cx.viol_d("C08:late-timeout", detail(json!({"what": format!("timeout error returned later than limit + slack = {} ms (twice; run-queue wait already subtracted)", c.limit_ms + slack_ms(c.limit_ms))})));
         } else if wall_over(&o, c.limit_ms, 1) {
             cx.rep.bump("wall_over_limit_plus_slack_explained_by_runqueue_wait(machine overload)");
@@ -986,9 +1123,14 @@ fn judge(cx: &mut Ctx, c: &Case, prediction: &str, res: &CaseRes) {
             );
             return;
         }
-        // model and code agree; the property is violated on this input: F-C08-1 if listed
-        if cx.is_open("F-C08-1") {
-            *cx.known_counts.entry("F-C08-1".into()).or_insert(0) += 1;
+        // model and code agree; the property is violated on this input. Cause rule of F-C08-4: the
+        // shape has a stringifying native with a handler below it AND every value the handler
+        // caught is the string error that run_display / run_debug_op put in place of the timeout
+        let f4 = cx.is_open("F-C08-4")
+            && stringified_with_handler_below(&c.shape)
+            && handler_events.iter().all(|e| e.1.starts_with("failed to get display value"));
+        if f4 {
+            *cx.known_counts.entry("F-C08-4".into()).or_insert(0) += 1;
         } else {
             cx.viol_d(
                 "C08:timeout-swallowed",
@@ -1013,7 +1155,15 @@ fn gen_cases(rng: &mut Rng, thorough: bool) -> Vec<Case> {
     };
     let push = |cases: &mut Vec<Case>, layers: Vec<Layer>, spin: Spin, limit: u64| {
         let shape = Shape { layers, spin, bound: None };
-        let family = if has_handler_below_nested(&shape) { "handler-below-nested-entry" } else { "sweep" };
+        let family = if shape.layers.iter().any(|l| l.frame_code() == 2) {
+            "F-C08-4"
+        } else if has_handler_below_nested(&shape) {
+            "handler-below-nested-entry"
+        } else {
+            "sweep"
+        };
+        // unbounded recursion allocates ≈ 1 GB of frames per second: short limits only
+        let limit = if DEEP_SPINS.contains(&spin) { limit.min(200) } else { limit };
         cases.push(Case { shape, limit_ms: limit, family });
     };
     let wrappers: Vec<Layer> = SAME_ENTRY.iter().chain(NESTED_ENTRY.iter()).copied().collect();
@@ -1078,6 +1228,11 @@ fn gen_cases(rng: &mut Rng, thorough: bool) -> Vec<Case> {
         if layers.iter().filter(|l| **l == Layer::TryRetry).count() > 1 {
             continue;
         }
+        // generation filter (not a suppression rule): the shape of F-C08-4 (a stringifying native on
+        // the way) is produced only as the witness family below while that finding is open
+        if layers.iter().any(|l| l.frame_code() == 2) {
+            continue;
+        }
         let lim = if thorough { *rng.pick(all_limits) } else { *rng.pick(quick_limits) };
         push(&mut cases, layers, shape.spin, lim);
         made += 1;
@@ -1099,6 +1254,19 @@ fn gen_cases(rng: &mut Rng, thorough: bool) -> Vec<Case> {
     push(&mut cases, vec![Layer::Each, Layer::Try, Layer::OpAdd, Layer::Try], Spin::Loop, fam_limit);
     push(&mut cases, vec![Layer::Try, Layer::GenFor, Layer::Method, Layer::Keep], Spin::UntilFalse, fam_limit);
     push(&mut cases, vec![Layer::Method, Layer::Try, Layer::Display], Spin::LoopHelper, 50);
+    // display of a container with a spinning element: witness family of F-C08-4 while it is open
+    // (the model then predicts `caught`), ordinary cases (predicted `escaped`) once it is fixed
+    push(&mut cases, vec![Layer::Try, Layer::DisplayInList], Spin::Loop, fam_limit);
+    push(&mut cases, vec![Layer::Try, Layer::DisplayInMap], Spin::WhileTrue, fam_limit);
+    push(&mut cases, vec![Layer::Try, Layer::DebugInTuple], Spin::UntilFalse, fam_limit);
+    push(&mut cases, vec![Layer::Try, Layer::Fn, Layer::DebugInTuple, Layer::Try], Spin::LoopHelper, fam_limit);
+    push(&mut cases, vec![Layer::TryRetry, Layer::DisplayInMap], Spin::MutualCalls, fam_limit);
+    push(&mut cases, vec![Layer::Each, Layer::Try, Layer::DisplayInList, Layer::OpAdd], Spin::Loop, fam_limit);
+    push(&mut cases, vec![Layer::Try, Layer::Import, Layer::DisplayInList], Spin::ForRepeat, fam_limit);
+    // unbounded recursion under handlers at every level and across nested entries
+    push(&mut cases, vec![Layer::Try], Spin::Recursion, 200);
+    push(&mut cases, vec![Layer::Try, Layer::Each, Layer::Try], Spin::RecursionPending, 50);
+    push(&mut cases, vec![Layer::TryRetry, Layer::Fn], Spin::Recursion, fam_limit);
     cases
 }
 
@@ -1158,6 +1326,7 @@ fn main() {
         .iter()
         .filter_map(|e| e.get("id").and_then(|x| x.as_str()).map(|s| s.to_string()))
         .collect();
+    STRINGIFY_OPEN.store(open.iter().any(|x| x == "F-C08-4"), Ordering::SeqCst);
     let drv = Driver::spawn(&args.driver);
     let mut cx = Ctx { rep, drv, open, known_counts: Default::default(), k_fail: 0, d_fail: 0 };
     let thorough = args.thorough();
@@ -1317,14 +1486,26 @@ fn main() {
         let limit = e.get("witness_limit_ms").and_then(|x| x.as_u64()).unwrap_or(50);
         let kind = e.get("witness_kind").and_then(|x| x.as_str()).unwrap_or("swallowed").to_string();
         if !script.is_empty() {
-            fixed_witnesses.push((id, script, limit, kind));
+            fixed_witnesses.push((id.clone(), script, limit, kind.clone()));
+        }
+        // further witnesses of the same finding: [{"script": …, "limit_ms": …, "kind": …}]
+        for (n, w) in e.get("witnesses").and_then(|x| x.as_array()).cloned().unwrap_or_default().iter().enumerate() {
+            if let Some(sc) = w.get("script").and_then(|x| x.as_str()) {
+                fixed_witnesses.push((
+                    format!("{}#w{}", id, n + 2),
+                    sc.to_string(),
+                    w.get("limit_ms").and_then(|x| x.as_u64()).unwrap_or(limit),
+                    w.get("kind").and_then(|x| x.as_str()).unwrap_or(&kind).to_string(),
+                ));
+            }
         }
     }
     if let Some(dir) = &args.corpus {
         for (name, script, limit, expect) in file_cases(dir) {
             let id = match expect.as_str() {
-                "swallowed" => "F-C08-1",
+                "swallowed-display" => "F-C08-4",
                 "late" => "F-C08-2",
+                "late-recursion" => "F-C08-5",
                 _ => "",
             };
             fixed_witnesses.push((format!("{}#corpus:{}", id, name), script, limit, expect));
@@ -1332,11 +1513,11 @@ fn main() {
     }
     {
         let results = pool_run(n_workers, &fixed_witnesses, |w, (_, script, limit, kind)| {
-            let kill = if kind == "late" { 30_000 } else { 8 * limit + 10_000 };
+            let kill = if kind.starts_with("late") { 30_000 } else { 8 * limit + 10_000 };
             let r = run_in(w, *limit, script, kill);
             // a too-slow run is repeated once (after a pause: load bursts of concurrent builds)
             match &r {
-                RunRes::Done(o) if kind != "late" && o.outcome == "timeout" && too_slow(o, *limit, 1) => {
+                RunRes::Done(o) if !kind.starts_with("late") && o.outcome == "timeout" && too_slow(o, *limit, 1) => {
                     std::thread::sleep(Duration::from_millis(500));
                     run_in(w, *limit, script, kill)
                 }
@@ -1349,7 +1530,7 @@ fn main() {
             cx.rep.bump("family=witness");
             let fails = match r {
                 RunRes::Done(o) => match kind.as_str() {
-                    "late" => o.outcome != "timeout" || too_slow(o, *limit, 1),
+                    k if k.starts_with("late") => o.outcome != "timeout" || too_slow(o, *limit, 1),
                     _ => o.outcome != "timeout" || !o.trace.is_empty() || too_slow(o, *limit, 1) || o.probe != PROBE_EXPECT,
                 },
                 _ => true,
@@ -1370,7 +1551,7 @@ fn main() {
                 cx.viol_d("C08:no-timeout", json!({"script": script, "script_hex": kvh::hex(script.as_bytes()), "limit_ms": limit, "result": res_json(r), "what": what}));
             } else if cx.is_open(&id) {
                 if fails {
-                    if !idfull.contains("#corpus:") {
+                    if !idfull.contains('#') {
                         cx.rep.known(&id, &what);
                     } else {
                         *cx.known_counts.entry(id.clone()).or_insert(0) += 1;
@@ -1393,13 +1574,17 @@ fn main() {
         let jobs: Vec<(Case, bool)> = cases.iter().cloned().zip(preds.iter().map(|p| p.starts_with("caught"))).collect();
         let results = pool_run(n_workers, &jobs, |w, (c, pc)| run_case(w, c, *pc));
         for ((c, pred), res) in cases.iter().zip(preds.iter()).zip(results.iter()) {
-            if !(pred == "escaped" || pred.starts_with("caught ")) {
+            if !(pred == "escaped timeout" || pred == "escaped other" || pred.starts_with("caught ")) {
                 cx.viol_k("K:C08:driver", json!({"what": "model driver gave no prediction", "request": deliver_request(&c.shape), "response": pred}));
                 continue;
             }
-            // Props/C08 not_catchable_nested: the executable model must say `escaped` for every stack
-            if pred != "escaped" {
-                cx.viol_k("K:C08:Model.Timeout.deliver", json!({"what": "the model driver predicts a caught timeout although not_catchable_nested proves `escaped` for every stack (driver and theorem file out of sync)", "request": deliver_request(&c.shape), "response": pred}));
+            // Props/C08 not_catchable_nested_partial / catchable_stringified: the executable model says
+            // `escaped timeout` unless a stringifying native is on the way; `caught` iff additionally a
+            // handler lies below it — the generation filter relies on the same condition
+            let has2 = c.shape.layers.iter().any(|l| l.frame_code() == 2);
+            let expect = if !has2 { "escaped timeout" } else if stringified_with_handler_below(&c.shape) { "caught" } else { "escaped other" };
+            if !pred.starts_with(expect) {
+                cx.viol_k("K:C08:Model.Timeout.deliver", json!({"what": "the model driver's prediction contradicts Props/C08 (not_catchable_nested_partial / catchable_stringified): driver and theorem file out of sync", "request": deliver_request(&c.shape), "response": pred, "expected": expect}));
             }
             judge(&mut cx, c, pred, res);
         }
@@ -1466,7 +1651,7 @@ fn main() {
                     if x.trace.is_empty() {
                         cx.rep.bump("terminating_script_without_trace");
                     }
-                    if x.outcome != y.outcome || x.trace != y.trace || x.probe != y.probe {
+                    if x.outcome != y.outcome || x.trace != y.trace || x.probe != y.probe || x.exports != y.exports || (x.outcome.starts_with("ok:") && y.exports != "i41;none") {
                         cx.viol_d("C08:terminating-differs", json!({"what": "a terminating script gives a different result/trace under an execution limit", "detail": detail}));
                     }
                     if cx.rep.samples.len() < 8 && !shape.layers.is_empty() {
